@@ -94,6 +94,10 @@ impl Prop for C08 {
         }
     }
 
+    fn view(c: &ProgCase) -> serde_json::Value {
+        prog_view(c)
+    }
+
     fn shrink(c: &ProgCase) -> Vec<ProgCase> {
         shrink_prog_case(c)
     }
